@@ -34,7 +34,15 @@
    * [enc_ok v]       an encoding argument: None, or a str that is a catalogue spelling of a modelled codec;
    * [call_good c]    encodings [enc_ok]; write_preamble: indent omitted / None / an int >= 0, line_endings None /
                       "dos" / "unix"; write_diff: line_endings likewise; write_meta: the metadata is a dict;
-   * [accepted s0 cs] every call of cs, run in order from s0, returned normally.
+   * [accepted s0 cs] every call of cs, run in order from s0, returned normally;
+   * [metas_encoded s0 cs]  at every write_meta of cs an encoding is in force (the call's encoding argument or the
+                      innermost open container's is truthy).  ADDED with the fix of write_meta (`if not (encoding or
+                      self._cur_encoding): content = content.encode('ascii')`): [enc_ok] allows None, and in a
+                      DiffXWriter(encoding=None) a write_meta without encoding used to raise TypeError (so [accepted]
+                      excluded it) and is now accepted, the JSON being written as bytes; the specification's serializer
+                      has "no effective encoding for text" there and is undefined: without the hypothesis the three
+                      theorems below are false (C02_writer_is_spec_unencoded_refuted).  It holds for every program of a
+                      writer constructed with an encoding, pydiffx's default being utf-8 (C02_writer_is_spec_encoded).
    No size bound is needed (nothing is read back).
 
    STATUS: full — all five calls, whole sequences, every intermediate output.  The converse ("spec_serialize = Some b
@@ -53,21 +61,37 @@ Local Open Scope list_scope.
 
 (* the whole output of an accepted program is the specification's serialization of the same calls *)
 Theorem C02_writer_is_spec : forall enc0 ver s0 cs,
-  writer_init enc0 ver = (s0, Ok tt) -> enc_ok enc0 -> Forall call_good cs -> accepted s0 cs ->
+  writer_init enc0 ver = (s0, Ok tt) -> enc_ok enc0 -> Forall call_good cs -> accepted s0 cs -> metas_encoded s0 cs ->
   spec_serialize enc0 ver cs = Some (w_out (snd (run_calls s0 cs))).
 Proof. exact C02_writer_is_spec_thm. Qed.
 Print Assumptions C02_writer_is_spec.
 
+(* ... in particular for every writer constructed with an encoding *)
+Theorem C02_writer_is_spec_encoded : forall enc0 ver s0 cs,
+  writer_init enc0 ver = (s0, Ok tt) -> enc_ok enc0 -> wv_truthy enc0 = true -> Forall call_good cs -> accepted s0 cs ->
+  spec_serialize enc0 ver cs = Some (w_out (snd (run_calls s0 cs))).
+Proof. exact writer_is_spec_encoded. Qed.
+Print Assumptions C02_writer_is_spec_encoded.
+
+(* without [metas_encoded] the statement is false of the fixed writer: DiffXWriter(encoding=None); write_meta({'k': 1}) *)
+Theorem C02_writer_is_spec_unencoded_refuted :
+  exists enc0 ver s0 cs,
+    writer_init enc0 ver = (s0, Ok tt) /\ enc_ok enc0 /\ Forall call_good cs /\ accepted s0 cs /\
+    ~ metas_encoded s0 cs /\ spec_serialize enc0 ver cs = None.
+Proof. exact writer_is_spec_unencoded_refuted. Qed.
+Print Assumptions C02_writer_is_spec_unencoded_refuted.
+
 (* ... and so is the output after every prefix of the program (the stream, call by call) *)
 Theorem C02_writer_is_spec_prefix : forall enc0 ver s0 pre post,
   writer_init enc0 ver = (s0, Ok tt) -> enc_ok enc0 -> Forall call_good (pre ++ post) -> accepted s0 (pre ++ post) ->
+  metas_encoded s0 (pre ++ post) ->
   spec_serialize enc0 ver pre = Some (w_out (snd (run_calls s0 pre))).
 Proof. exact writer_is_spec_prefix. Qed.
 Print Assumptions C02_writer_is_spec_prefix.
 
 (* in particular the specification's serializer is defined there *)
 Theorem C02_spec_defined : forall enc0 ver s0 cs,
-  writer_init enc0 ver = (s0, Ok tt) -> enc_ok enc0 -> Forall call_good cs -> accepted s0 cs ->
+  writer_init enc0 ver = (s0, Ok tt) -> enc_ok enc0 -> Forall call_good cs -> accepted s0 cs -> metas_encoded s0 cs ->
   spec_serialize enc0 ver cs <> None.
 Proof. exact spec_serialize_defined. Qed.
 Print Assumptions C02_spec_defined.
@@ -88,6 +112,7 @@ Example C02_writer_is_spec_ex :
   writer_init RoundTripSeqExample.ex_enc0 RoundTripSeqExample.ex_ver = (RoundTripSeqExample.ex_s0, Ok tt) /\
   enc_ok RoundTripSeqExample.ex_enc0 /\ Forall call_good RoundTripSeqExample.ex_cs /\
   accepted RoundTripSeqExample.ex_s0 RoundTripSeqExample.ex_cs /\
+  metas_encoded RoundTripSeqExample.ex_s0 RoundTripSeqExample.ex_cs /\
   spec_serialize RoundTripSeqExample.ex_enc0 RoundTripSeqExample.ex_ver RoundTripSeqExample.ex_cs
     = Some (w_out (snd (run_calls RoundTripSeqExample.ex_s0 RoundTripSeqExample.ex_cs))) /\
   option_map (@length byte)
